@@ -42,4 +42,7 @@ def encVehicleFields :=
 
 def encVehicle (x : VehicleData) : List UInt8 := encVehicleFields (vehicleFields x)
 
+/-- optional fields and groups the source hashes that the model's records do not have (hashed as absent) -/
+def unmodelledOptionalFields : List String := []
+
 end Gtfs.Gen.HashSchema
